@@ -150,6 +150,10 @@ pub enum BFun {
     Each(EFun),
     Rev,
     DropLast,
+    /// every element twice (expanding, element-wise)
+    Dup,
+    /// prepend Int(-1) to every chunk (expanding, chunk-sensitive)
+    Header,
 }
 #[derive(Clone, Debug, PartialEq)]
 pub enum Cid {
@@ -254,6 +258,8 @@ pub fn bf(b: &BFun, l: &[Val]) -> Vec<Val> {
         BFun::Each(f) => l.iter().map(|x| ef(f, x)).collect(),
         BFun::Rev => l.iter().rev().cloned().collect(),
         BFun::DropLast => l[..l.len().saturating_sub(1)].to_vec(),
+        BFun::Dup => l.iter().flat_map(|x| [x.clone(), x.clone()]).collect(),
+        BFun::Header => std::iter::once(Val::Int(-1)).chain(l.iter().cloned()).collect(),
     }
 }
 
@@ -333,6 +339,8 @@ pub fn parse_bfun(j: &Value) -> R<BFun> {
         Some(("each", [f])) => BFun::Each(parse_efun(f)?),
         Some(("rev", [])) => BFun::Rev,
         Some(("droplast", [])) => BFun::DropLast,
+        Some(("dup", [])) => BFun::Dup,
+        Some(("header", [])) => BFun::Header,
         _ => return bad("bfun", j),
     })
 }
@@ -341,6 +349,8 @@ pub fn bfun_json(b: &BFun) -> Value {
         BFun::Each(f) => json!(["each", efun_json(f)]),
         BFun::Rev => json!(["rev"]),
         BFun::DropLast => json!(["droplast"]),
+        BFun::Dup => json!(["dup"]),
+        BFun::Header => json!(["header"]),
     }
 }
 pub fn parse_cid(j: &Value) -> R<Cid> {
@@ -643,7 +653,7 @@ pub fn elementwise_step(s: &Step) -> bool {
         Step::Map(_) | Step::Filter(_) | Step::FlatMap(_) | Step::KeyBy(_) | Step::Unkey
         | Step::MapValues(_) | Step::FilterValues(_) | Step::MapValuesW(_) | Step::FilterValuesW(_)
         | Step::MapValuesBack(_) | Step::GroupsToList => true,
-        Step::MapBatches(_, BFun::Each(_)) | Step::MapValuesBatches(_, BFun::Each(_)) => true,
+        Step::MapBatches(_, BFun::Each(_) | BFun::Dup) | Step::MapValuesBatches(_, BFun::Each(_)) => true,
         _ => false,
     }
 }
@@ -662,7 +672,8 @@ pub fn hash_step(s: &Step) -> bool {
 /// a batch function that is not element-wise: the result legitimately depends on the partitioning
 pub fn partition_dependent(steps: &[Step]) -> bool {
     steps.iter().any(|s| match s {
-        Step::MapBatches(_, b) | Step::MapValuesBatches(_, b) => !matches!(b, BFun::Each(_)),
+        Step::MapBatches(_, b) => !matches!(b, BFun::Each(_) | BFun::Dup),
+        Step::MapValuesBatches(_, b) => !matches!(b, BFun::Each(_)),
         Step::Join(_, rs, _) => partition_dependent(rs),
         _ => false,
     })
@@ -1052,7 +1063,13 @@ pub fn apply_step(p: &Pipeline, c: Coll, s: &Step) -> R<Coll> {
                     _ => Err("right row is not a pair".to_string()),
                 })
                 .collect::<R<_>>()?;
-            let right = match apply_steps(p, KV(from_vec(p, rrows)), rsteps)? {
+            // The public API lets the right side live in another Pipeline (the builders snapshot
+            // it from `right.pipeline`); the model is pipeline-agnostic.  Deterministically about
+            // half of the joins (all four kinds) build their right side in a fresh Pipeline.
+            let own = Pipeline::default();
+            let rp: &Pipeline =
+                if (rrows.len() + rsteps.len() + *kind as usize) % 2 == 0 { &own } else { p };
+            let right = match apply_steps(rp, KV(from_vec(rp, rrows)), rsteps)? {
                 KV(r) => r,
                 _ => return ill(),
             };
@@ -1529,15 +1546,17 @@ pub struct GenOpts {
     pub reorder_class: bool,
     /// allow a global Min / Max of an empty input (panics in every mode)
     pub empty_minmax: bool,
+    /// allow the chunk-sensitive expanding batch function `header` (C02: sequential runs only)
+    pub header: bool,
 }
 impl GenOpts {
     pub fn elementwise() -> Self {
         GenOpts { barriers: false, joins: false, odd_batches: false, retype: true,
-                  reorder_class: false, empty_minmax: false }
+                  reorder_class: false, empty_minmax: false, header: false }
     }
     pub fn all() -> Self {
         GenOpts { barriers: true, joins: true, odd_batches: false, retype: true,
-                  reorder_class: false, empty_minmax: false }
+                  reorder_class: false, empty_minmax: false, header: false }
     }
 }
 
@@ -1700,9 +1719,18 @@ pub fn gen_cid(rng: &mut SplitMix64, comparable: bool) -> Cid {
         }
     }
 }
-fn gen_bfun(rng: &mut SplitMix64, sample: Option<&Val>, odd: bool) -> BFun {
+/// `values`: for map_values_batches (the output length must equal the chunk length)
+fn gen_bfun(rng: &mut SplitMix64, sample: Option<&Val>, odd: bool, header: bool, values: bool) -> BFun {
     if odd && rng.chance(1, 2) {
-        if rng.chance(3, 4) { BFun::Rev } else { BFun::DropLast }
+        match rng.below(if values { 4 } else { 6 }) {
+            0 | 1 | 2 => BFun::Rev,
+            3 => BFun::DropLast,
+            _ => BFun::Header,
+        }
+    } else if !values && rng.chance(1, 4) {
+        BFun::Dup
+    } else if !values && header && rng.chance(1, 3) {
+        BFun::Header
     } else {
         BFun::Each(gen_efun(rng, sample, 0))
     }
@@ -1738,7 +1766,7 @@ pub fn gen_step(rng: &mut SplitMix64, sim: &Sim, o: &GenOpts, parts: usize) -> O
                 }),
                 4 | 5 | 6 => Step::KeyBy(gen_keyfun(rng, &sim.rows)),
                 7 | 8 => Step::MapBatches(rng.below(5) as usize,
-                                          gen_bfun(rng, sample, o.odd_batches && sim.ordered)),
+                                          gen_bfun(rng, sample, o.odd_batches && sim.ordered, o.header && sim.ordered, false)),
                 9 | 10 => {
                     let c = gen_cid(rng, sim.comparable());
                     Step::CombineGlobally(c, rng.chance(1, 2), gen_fanout(rng, parts))
@@ -1756,7 +1784,7 @@ pub fn gen_step(rng: &mut SplitMix64, sim: &Sim, o: &GenOpts, parts: usize) -> O
                 3 => Step::Filter(gen_pfun(rng, sample, 0)),
                 4 => Step::Unkey,
                 5 => Step::MapValuesBatches(rng.below(5) as usize,
-                                            gen_bfun(rng, vsample.as_ref(), o.odd_batches && sim.ordered)),
+                                            gen_bfun(rng, vsample.as_ref(), o.odd_batches && sim.ordered, false, true)),
                 6 => Step::FlatMap(if rng.chance(3, 4) { GFun::Repeat(rng.below(3) as usize) } else { GFun::None }),
                 7 | 8 => {
                     if !o.retype {
@@ -1852,7 +1880,7 @@ pub fn gen_join(rng: &mut SplitMix64, sim: &Sim, o: &GenOpts, parts: usize) -> S
         .collect();
     let mut rsteps = vec![];
     let mut rs = Sim::new(Shape::KV, rdata.clone());
-    let inner = GenOpts { joins: rng.chance(1, 25), odd_batches: false, reorder_class: true, ..o.clone() };
+    let inner = GenOpts { joins: rng.chance(1, 25), odd_batches: false, header: false, reorder_class: true, ..o.clone() };
     for _ in 0..rng.below(4) {
         match gen_step(rng, &rs, &inner, parts) {
             Some((s, next)) => {
@@ -2110,4 +2138,80 @@ pub fn sim_allows(sim: &Sim, s: &Step, o: &GenOpts) -> bool {
             .any(|k| values_of(k, &sim.rows).iter().all(|g| vlist(g).is_empty())),
         _ => true,
     }
+}
+
+/// Every barrier kind as a keyed -> keyed chain, so that it can sit on either side of a join:
+/// group_by_key, combine_values, group_by_key + combine_values_lifted, combine_globally (lifted
+/// and not, every fan-out in {null,0,1,2,3,parts-1,parts,parts+1}) followed by key_by, distinct,
+/// distinct_per_key, top_k_per_key.  `full` = every combiner for the global combines (thorough);
+/// otherwise the combiner rotates with the fan-out.
+pub fn barrier_chains(parts: usize, full: bool) -> Vec<Vec<Step>> {
+    let to_list = |c: &Cid| if c.list_out() { vec![Step::GroupsToList] } else { vec![] };
+    let mut v: Vec<Vec<Step>> = vec![vec![Step::GroupByKey, Step::GroupsToList]];
+    for c in [Cid::Sum, Cid::Min, Cid::TopK(2), Cid::Distinct] {
+        v.push([vec![Step::CombineValues(c.clone())], to_list(&c)].concat());
+    }
+    for c in [Cid::Sum, Cid::Count, Cid::TopK(1), Cid::Distinct] {
+        v.push([vec![Step::GroupByKey, Step::CombineValuesLifted(c.clone())], to_list(&c)].concat());
+    }
+    let mut fs: Vec<Option<usize>> = vec![None, Some(0), Some(1), Some(2), Some(3)];
+    for f in [parts.saturating_sub(1), parts, parts + 1] {
+        if !fs.contains(&Some(f)) {
+            fs.push(Some(f));
+        }
+    }
+    let cids = [Cid::Sum, Cid::Count, Cid::TopK(2), Cid::Distinct];
+    for (i, f) in fs.iter().enumerate() {
+        for (j, lifted) in [false, true].into_iter().enumerate() {
+            for (ci, c) in cids.iter().enumerate() {
+                if !full && ci != (2 * i + j) % 3 {
+                    continue; // quick: Sum / Count / TopK rotate
+                }
+                let mut ch = vec![Step::Unkey, Step::Map(EFun::Snd),
+                                  Step::CombineGlobally(c.clone(), lifted, *f)];
+                if c.list_out() {
+                    ch.push(Step::FlatMap(GFun::Elems));
+                }
+                ch.push(Step::KeyBy(EFun::Mod(3)));
+                v.push(ch);
+            }
+        }
+    }
+    v.push(vec![Step::Distinct]);
+    v.push(vec![Step::DistinctPerKey]);
+    v.push(vec![Step::TopKPerKey(2), Step::GroupsToList]);
+    v
+}
+
+/// (source, steps, partitions): each barrier chain on the LEFT side (before the join step) and on
+/// the RIGHT side (inside rsteps) of a join, join kind rotating, partitions 2..=5, both sides at
+/// least 3 x partitions rows long (so every side really runs in several partitions and the
+/// parallel sub-plan engine `run_subplan_par` executes the barrier).
+pub fn join_side_barrier_cases(rng: &mut SplitMix64, full: bool) -> Vec<(Src, Vec<Step>, usize)> {
+    let kinds = [JoinKind::Inner, JoinKind::Left, JoinKind::Right, JoinKind::Full];
+    let mut out = vec![];
+    let mut n = 0usize;
+    for parts in 2..=5usize {
+        for extra in if full { vec![0usize, 1, 2] } else { vec![parts % 3] } {
+            let len = 3 * parts + extra;
+            for chain in barrier_chains(parts, full) {
+                for left_side in [true, false] {
+                    n += 1;
+                    let kind = kinds[n % 4];
+                    let pat = PATTERNS[n % PATTERNS.len()];
+                    let ldata = pattern_kv(pat, len, rng);
+                    let rdata: Vec<Val> = (0..len + n % 2)
+                        .map(|i| pair(Val::Int((i % 4) as i64), Val::Int(rng.range(-9, 30))))
+                        .collect();
+                    let steps = if left_side {
+                        [chain.clone(), vec![Step::Join(kind, vec![], rdata)]].concat()
+                    } else {
+                        vec![Step::Join(kind, chain.clone(), rdata)]
+                    };
+                    out.push((Src::Vec(Shape::KV, ldata), steps, parts));
+                }
+            }
+        }
+    }
+    out
 }
